@@ -954,6 +954,11 @@ func c11NoBlock(w *World, r *Report, q *queueA) {
 				if strings.HasSuffix(e, ".waitCh") && strings.Contains(e, "select#") {
 					return // reply to the Len request: the requester is blocked in the matching receive
 				}
+				// more generally: the reply channel carried by a request that this select received
+				// (the requester sends the request and then blocks in the receive of the reply)
+				if replyOfReceivedRequest(x.Chan) {
+					return
+				}
 				ob.Violate("loop-send@"+FnName(fn), in.Pos(), "the event loop sends on `"+e+"`, which may block it")
 			case *ssa.UnOp:
 				if x.Op == token.ARROW {
@@ -1042,4 +1047,33 @@ func funcsOfValue(v ssa.Value, depth int) []*ssa.Function {
 		return out
 	}
 	return nil
+}
+
+// replyOfReceivedRequest: the channel is a field of a value that a select of the loop received.
+func replyOfReceivedRequest(v ssa.Value) bool {
+	for d := 0; d < 8; d++ {
+		switch x := v.(type) {
+		case *ssa.UnOp:
+			v = x.X
+		case *ssa.FieldAddr:
+			v = x.X
+		case *ssa.Field:
+			v = x.X
+		case *ssa.Alloc:
+			if x.Parent() == nil {
+				return false
+			}
+			sts := storesTo(x.Parent(), x)
+			if len(sts) != 1 {
+				return false
+			}
+			v = sts[0].Val
+		case *ssa.Extract:
+			_, isSel := x.Tuple.(*ssa.Select)
+			return isSel && x.Index >= 2
+		default:
+			return false
+		}
+	}
+	return false
 }
